@@ -94,6 +94,10 @@ def main(pid):
     for si, sh in enumerate(shapes):
         for j in range(per):
             add(sh["shape"], sh["exp"], pool[(si + j * 5) % len(pool)], "shape")
+            # the configuration remove_ambiguous=True: the pool's reporter strings each name exactly one edition (also
+            # with a year outside that edition's dates), so nothing written here is ambiguous and the expectation is the same
+            add(sh["shape"], sh["exp"], pool[(si + j * 5) % len(pool)], "shape-ra")
+            items[-1]["ra"] = True
     # the database dimension: minimal forms for every reporter string with the plain template
     minimal_full = next(s for s in shapes if s["shape"] == {"form": "full", "lead": "prose", "parties": "none", "preyear": False, "pin": "none",
                                                             "parallel": False, "yp": "none", "paren": "none", "term": "dot", "trail": "sentence"})
